@@ -124,6 +124,15 @@ def check_unless(ctx, rng):
         return Violation("unless sugar: %r / %r raised %r / %r" % (lhs, rhs, l[:2], r[:2]), rep, stream="spell/unless")
     if l[1][0] != r[1][0] or not same_vals(l[1][1], r[1][1]):
         return Violation("%r and %r differ: %r vs %r" % (lhs, rhs, l[1], r[1]), rep, stream="spell/unless")
+    # the same sugar through the other monitors: online after pastify (bounded future only), dense-time offline parse
+    if timed and not F.has_unbounded_future(p) and not F.has_unbounded_future(q):
+        ctx.count("unless-online-pastified")
+        lo = impl.run_online_discrete(lhs, vs, data, n, pastify=True)
+        ro = impl.run_online_discrete(rhs, vs, data, n, pastify=True)
+        rep = dict(rep, online_lhs=lo, online_rhs=ro)
+        if lo[0] != ro[0] or (lo[0] == "ok" and not same_vals(lo[1], ro[1])):
+            return Violation("online monitors of the pastified %r and %r differ: %r vs %r" % (lhs, rhs, lo[:2], ro[:2]), rep,
+                             stream="spell/unless-online")
     return None
 
 
@@ -162,6 +171,11 @@ def replay(ctx, obj):
     if obj.get("kind") == "unless":
         l, r = stl_eval(obj["lhs"], vs, data, obj["n"]), stl_eval(obj["rhs"], vs, data, obj["n"])
         ok = l[0] == "ok" and r[0] == "ok" and l[1][0] == r[1][0] and same_vals(l[1][1], r[1][1])
+        if ok and "online_lhs" in obj:
+            lo = impl.run_online_discrete(obj["lhs"], vs, data, obj["n"], pastify=True)
+            ro = impl.run_online_discrete(obj["rhs"], vs, data, obj["n"], pastify=True)
+            ok = lo[0] == ro[0] and (lo[0] != "ok" or same_vals(lo[1], ro[1]))
+            l, r = lo, ro
         return ok, ("unless sugar agrees" if ok else "unless sugar differs: %r vs %r" % (l, r))
     base = stl_eval(obj["canonical"], vs, data, obj["n"])
     out = stl_eval(obj["rendering"], vs, data, obj["n"]) if obj.get("front_end", "stl") == "stl" else ltl_eval(obj["rendering"], vs, data, obj["n"])
